@@ -21,6 +21,48 @@ def CacheInv (names : List String) (cached : List (Option (String × Nat))) : Pr
   cached.length = names.length ∧ ∀ (j : Nat) (key : String × Nat), cached[j]? = some (some key) → names[j]? = some key.1
 
 mutual
+/-- `serialize_default` into this builder appends rows whose meaning never changes afterwards.  The only
+builder for which this can fail is a dictionary with non-nullable keys: its placeholder is the key `0`, which
+designates nothing while the dictionary is empty and the first value pushed later on (the row is hidden below a
+null ancestor in the finished array, but `dec` of the dictionary builder itself is not append-only). -/
+def DefSafe : B → Prop
+  | .dictionary _ idx _ _ => idx.isNullable = true ∧ DefSafe idx
+  | .struct _ _ _ fs _ _ _ => DefSafeL fs
+  | .fixedSizeList _ _ _ _ _ _ el => DefSafe el
+  | .union _ fs _ _ _ => DefSafeHead fs
+  | _ => True
+def DefSafeL : BL → Prop
+  | .nil => True
+  | .cons b _ r => DefSafe b ∧ DefSafeL r
+def DefSafeHead : BL → Prop
+  | .nil => True
+  | .cons b _ _ => DefSafe b
+end
+
+/-- is this a dictionary builder? -/
+def B.isDict : B → Bool
+  | .dictionary _ _ _ _ => true
+  | _ => false
+
+mutual
+/-- every builder that issues `serialize_default` (a nullable struct or fixed-size list receiving a null)
+targets `DefSafe` children; and the KEY builder of a dictionary is not itself a dictionary (a dictionary forwards
+integers through `to_string`, so a dictionary-keyed dictionary would receive its keys as strings and hand back
+whatever its own values decode to).  A property of the schema only (see `Lemmas/C10Take`: unchanged by every push). -/
+def Safe : B → Prop
+  | .list _ _ _ _ _ el => Safe el
+  | .fixedSizeList _ _ _ _ v _ el => Safe el ∧ (v.isSome = true → DefSafe el)
+  | .map _ _ _ _ ks vs => Safe ks ∧ Safe vs
+  | .struct _ _ v fs _ _ _ => SafeL fs ∧ (v.isSome = true → DefSafeL fs)
+  | .dictionary _ idx vals _ => idx.isDict = false ∧ Safe idx ∧ Safe vals
+  | .union _ fs _ _ _ => SafeL fs
+  | _ => True
+def SafeL : BL → Prop
+  | .nil => True
+  | .cons b _ r => Safe b ∧ SafeL r
+end
+
+mutual
 def WFB : B → Prop
   | .null _ _ => True
   | .unknownVariant _ => True
@@ -37,11 +79,11 @@ def WFB : B → Prop
   | .dictionary _ idx vals index =>
     WFB idx ∧ WFB vals ∧ index.Nodup ∧
     (dec vals).length = index.length ∧
-    (∀ k ∈ dec idx, k = .null ∨ ∃ j : Nat, k = .int j ∧ (j < index.length ∨ j = 0))
+    (∀ k ∈ dec idx, ∀ j : Int, k = .int j → 0 ≤ j ∧ j.toNat < index.length)
   | .union _ fs types offs cur =>
     types.length = offs.length ∧ cur.length = fs.length ∧ WFU fs cur ∧
-    (∀ (i : Nat) (t o : Int), types[i]? = some t → offs[i]? = some o →
-      0 ≤ t ∧ 0 ≤ o ∧ ∃ c, fs.get? t.toNat = some c ∧ o.toNat < (dec c.1).length)
+    (∀ to ∈ types.zip offs,
+      0 ≤ to.1 ∧ 0 ≤ to.2 ∧ ∃ c, fs.get? to.1.toNat = some c ∧ to.2.toNat < (dec c.1).length)
 /-- struct children: all well formed and all at the row count -/
 def WFL : BL → Nat → Prop
   | .nil, _ => True
